@@ -174,6 +174,8 @@ def c_stmt(st):
         return C("SActLog", Nat(h), c_type(t), c_fields(fs))
     if k == "act":
         _, h, style, task, t, fs, sers, succ, body, api = st
+        if api == "log_call":
+            fs = fs + [[17, {"a": 30}], [18, {"a": 31}]]      # *f17 -> () (JSON []), **f18 -> {}
         return C("SAct", Nat(h), C({"with": "WithBlock", "ctx": "CtxFinish", "run": "RunFinish"}[style]), bool(task),
                  c_type(t), c_fields(fs),
                  c_opt(sers, lambda s: C("action_sers", c_type(t), c_serlist(s["start"]), c_serlist(s["success"]))),
@@ -710,11 +712,15 @@ class Interp(object):
             rec = {"exc": None, "task": bool(task), "parent": (st_now[-1] if st_now else None), "style": style,
                    "finished": False}
             self.arec[str(h)] = rec
-            node = {"k": "A", "type": type_name(t), "h": h, "start": fs, "sers": sers, "succ": succ, "children": [], "rec": rec}
+            node = {"k": "A", "type": type_name(t), "h": h, "start": fs, "sers": sers, "succ": succ, "children": [], "rec": rec,
+                    "api": api}
             pch = None if task else self.shadow_parent_children(c)
             (self.forest if pch is None else pch).append(node)
             self.tnode[h] = node
             self.cur_ctx = c
+            if api == "log_call":
+                self.run_log_call(st, c, rec)
+                return
             self.g(c)
             a = self.start(st)
             self.g(c)
@@ -901,6 +907,41 @@ class Interp(object):
                 self.notes.append("caller_dict_mutated")
         else:
             raise ValueError(st)
+
+    def run_log_call(self, st, c, rec):
+        """the action is made by a log_call-decorated function whose parameters are the start fields"""
+        _, h, style, task, t, fs, sers, succ, body, api = st
+        el = self.eliot
+        names = [key_name(k) for k, _ in fs]
+        src = "def fn(%s):\n    return __body__()\n" % ", ".join(names + ["*f17", "**f18"])
+        interp = self
+
+        def __body__():
+            a = el.current_action()
+            interp.register(h, a)
+            interp.push(c, h)
+            try:
+                interp.probe(c)
+                interp.block(body, c)
+                interp.call("add_success_fields", a.add_success_fields, **interp.fields(succ))
+            except LoggingRaised:
+                raise
+            except BaseException as e0:
+                rec["exc"] = interp.exc_id(e0)
+                raise
+            finally:
+                interp.pop(c)
+                rec["finished"] = True
+        ns = {"__body__": __body__, "__name__": "verifgen"}
+        exec(src, ns)
+        dec = el.log_call(action_type=type_name(t), include_result=False)(ns["fn"])
+        try:
+            dec(**self.fields(fs))
+        except LoggingRaised:
+            raise
+        except BaseException as e:
+            self.check_same(e, "log_call")
+            raise
 
     def exc_id(self, e):
         ids = [i for i, x in self.raised.items() if x is e]
@@ -1096,7 +1137,7 @@ class Gen(object):
     def __init__(self, rng, depth=4, width=4, p_raise=0.15, p_typed=0.3, p_fault_ser=0.0, p_handoff=0.08,
                  p_reenter=0.05, p_tb=0.05, p_finish_again=0.05, base_only=0.3, sr=0.15, p_try=0.15,
                  styles=("with", "with", "ctx", "run"), p_actlog=0.08, p_task=0.08, p_raw=0.0, p_hostile=0.0,
-                 p_finish_inside=0.0, p_reserved=0.0):
+                 p_finish_inside=0.0, p_reserved=0.0, p_logcall=0.0):
         self.rng = rng
         self.__dict__.update(locals())
         self.next_h = 0
@@ -1233,6 +1274,11 @@ class Gen(object):
                 api = "ActionType"
             else:
                 sers, fs, succ, api = None, self.fields(3, 20, 26, reserved=(1, 2, 3, 6)), self.fields(2, 26, 32, reserved=(1, 2, 3, 6, 7, 8)), "start_action"
+                if rng.random() < self.p_logcall:
+                    # a log_call-decorated function: the start fields are its arguments; it also has *args/**kwargs
+                    # parameters (f17, f18) that receive nothing and must be logged as () and {}
+                    api, style, task = "log_call", "with", False
+                    fs = [f for f in fs if f[0] >= 20]
             fs = fs + [[19, {"i": h}]]
             succ = succ + [[19, {"i": h}]]
             body = self.stmts(depth - 1, enclosing + [h], c)
